@@ -175,6 +175,12 @@ type DecUse struct {
 	Pos    token.Pos
 }
 
+// noOtherKeys: context fields whose value is, by construction of the collector
+// that fills them, one of the constants the emitter switches over
+// (TimestampFormatFieldInfo.Format, BytesEncodingFieldInfo.Encoding: only
+// non-default formats/encodings are collected).
+var noOtherKeys = regexp.MustCompile(`\.(Format|Encoding)$`)
+
 var iterRe = regexp.MustCompile(`@\d+`)
 
 func eraseIters(k string) string { return iterRe.ReplaceAllString(k, "@") }
@@ -199,6 +205,12 @@ type Walker struct {
 	// Statistics.
 	InlinedHelpers map[string]int
 	optMemo        map[*types.Func]bool
+	// InlineAllRuns makes every new run follow all generator-package functions
+	// (so that conditions computed by helper loops, e.g. "does this file need
+	// net/url", are correlated with the emitters' own decisions).
+	InlineAllRuns bool
+	// FixRuns answers decisions of every new run (invariants of the input space).
+	FixRuns func(dk, constRepr string) (int, bool)
 	MaxDepth       int
 	RecLimit       int
 }
@@ -237,6 +249,8 @@ type Run struct {
 	Fix func(dk string, constRepr string) (ans int, ok bool)
 	// Result of the root function (Start).
 	Result Val
+	// FollowSlices: also follow helpers that build and return a slice (conflict detectors).
+	FollowSlices bool
 	// Assigned records assignments to fields (x.F = v) in execution order.
 	Assigned []FieldAssign
 	// InlineAll: follow every repository function with a body (validation
@@ -357,7 +371,7 @@ func (w *Walker) NewRun(dec map[string]int, rotate bool) *Run {
 	if dec == nil {
 		dec = map[string]int{}
 	}
-	return &Run{W: w, Dec: dec, Rotate: rotate, usedIdx: map[string]int{}, fuel: 400000}
+	return &Run{W: w, Dec: dec, Rotate: rotate, usedIdx: map[string]int{}, fuel: 400000, InlineAll: w.InlineAllRuns, Fix: w.FixRuns}
 }
 
 func (r *Run) problem(pos token.Pos, format string, a ...any) {
@@ -446,6 +460,9 @@ func (r *Run) valueIs(key, constRepr string, pos token.Pos) bool {
 		r.W.domains[ek] = dom
 	}
 	c := r.decide("v:"+key, DecValue, len(dom)+1, pos)
+	if c == 0 && noOtherKeys.MatchString(ek) {
+		c = 1 // the collector only records fields whose value is one of the handled constants
+	}
 	if c == 0 || c > len(dom) {
 		return false
 	}
@@ -1604,6 +1621,25 @@ func (r *Run) followInValidation(fn *types.Func) bool {
 	}
 	rel := strings.TrimPrefix(fn.Pkg().Path(), modPath+"/")
 	if helperPkgs[rel] || rel == "internal/openapiv3" {
+		// collectors (no result, or slice/map results built by append through
+		// out-parameters) stay symbolic lists; predicates, validators and
+		// config builders are followed.
+		res := fn.Type().(*types.Signature).Results()
+		if res.Len() == 0 {
+			return false
+		}
+		for i := 0; i < res.Len(); i++ {
+			switch u := res.At(i).Type().Underlying().(type) {
+			case *types.Slice, *types.Map:
+				if !r.FollowSlices {
+					return false
+				}
+			case *types.Pointer:
+				if _, isStruct := u.Elem().Underlying().(*types.Struct); !isStruct {
+					return false
+				}
+			}
+		}
 		return true
 	}
 	if rel == "internal/annotations" {
